@@ -6,6 +6,8 @@ import (
 	"fmt"
 	"math"
 	"sort"
+	"strings"
+	"sync"
 
 	"github.com/gcash/bchd/chaincfg/chainhash"
 	"github.com/gcash/bchd/wire"
@@ -42,7 +44,45 @@ type c09History struct {
 }
 
 // item alphabet: every length 0..9, 20, 32, 33, 36 x two fills
+// Murmur twins: two different 8-byte items with the same MurmurHash3 value under a given seed (found
+// by a birthday walk over counters, about 2^17 hashes).  Item names "tw<seed hex>a" / "tw<seed hex>b".
+// Under a filter whose FIRST hash function has that seed (seed = tweak) the two items share their
+// first bit and differ in the others: anything that identifies an item by one hash value (a memo of
+// the last item's offsets keyed by hash 0) confuses them.
+var c09TwinCache sync.Map
+
+func c09Twins(seed uint32) (a, b []byte) {
+	if v, ok := c09TwinCache.Load(seed); ok {
+		t := v.([2][]byte)
+		return t[0], t[1]
+	}
+	seen := make(map[uint32]uint32, 1<<18)
+	mk := func(i uint32) []byte {
+		// both 4-byte blocks vary (with one block fixed, MurmurHash3 is a bijection of the other: no twins)
+		j := i*2654435761 ^ 0x7477696e
+		return []byte{byte(i), byte(i >> 8), byte(i >> 16), byte(i >> 24), byte(j), byte(j >> 8), byte(j >> 16), byte(j >> 24)}
+	}
+	for i := uint32(0); i < 1<<22; i++ {
+		h := ref.Murmur3(seed, mk(i))
+		if j, ok := seen[h]; ok {
+			c09TwinCache.Store(seed, [2][]byte{mk(j), mk(i)})
+			return mk(j), mk(i)
+		}
+		seen[h] = i
+	}
+	panic("c09: no murmur twins found")
+}
+
 func c09Item(name string) []byte {
+	if strings.HasPrefix(name, "tw") {
+		var seed uint32
+		fmt.Sscanf(name[2:len(name)-1], "%x", &seed)
+		a, b := c09Twins(seed)
+		if name[len(name)-1] == 'a' {
+			return a
+		}
+		return b
+	}
 	var n int
 	var hi bool
 	fmt.Sscanf(name, "%d", &n)
@@ -538,6 +578,38 @@ func runC09(c *mc.Ctx) {
 			rec(nil)
 		}
 		c.Space("histories of <= 4 (5) operations on saturated filters (prefill 0xff) and with reloads of a saturated message", int64(len(hs)))
+		c.ParFor(int64(len(hs)), func(w *mc.W, i int64) {
+			w.State()
+			c09EvalHistory(w, hs[i])
+		})
+	}
+	// (1e) murmur twins under the filter's first and second hash function: every sequence of <= 3 (4)
+	// operations over {add, matches} x {twin a, twin b, an unrelated item of the same length}
+	{
+		var hs []c09History
+		for _, tw := range []uint32{0x5eed0009, 0, 0xffffffff} {
+			for fn := uint32(0); fn < 2; fn++ {
+				seed := fn*0xFBA4C795 + tw
+				na, nb := fmt.Sprintf("tw%xa", seed), fmt.Sprintf("tw%xb", seed)
+				tm := []string{"add:" + na, "add:" + nb, "m:" + na, "m:" + nb, "add:8", "m:8"}
+				for _, cfg := range []c09Config{{Bytes: 512, HashFuncs: 7, Tweak: tw, Flags: 0}, {Bytes: 16, HashFuncs: 2, Tweak: tw, Flags: 1}} {
+					var rec func(ops []string)
+					rec = func(ops []string) {
+						if len(ops) > 0 {
+							hs = append(hs, c09History{Cfg: cfg, Ops: append([]string{}, ops...)})
+						}
+						if len(ops) == mc.Pick(c, 3, 4) {
+							return
+						}
+						for _, a := range tm {
+							rec(append(ops, a))
+						}
+					}
+					rec(nil)
+				}
+			}
+		}
+		c.Space("histories of <= 3 (4) operations over pairs of items with equal MurmurHash3 under the seed of the filter's first / second hash function", int64(len(hs)))
 		c.ParFor(int64(len(hs)), func(w *mc.W, i int64) {
 			w.State()
 			c09EvalHistory(w, hs[i])
